@@ -22,7 +22,8 @@ RULE = ("(a) single calls: the 23 (start state, call) cases of C13/C10 plus stor
         "after every shared operation of either thread. Oracle: every object file's digest equals its name; every "
         "metadata document is byte-for-byte one of the supplied versions; every pid reference is exactly one cid of "
         "the scenario; within one call a permanent address changes presence at most once (appears or disappears "
-        "in a single step; an overwritten document is never absent). cid reference lists, *_delete names and the tmp "
+        "in a single step; an overwritten document is never absent); a staging file in a tmp directory is written by "
+        "one call only (two threads opening the same staging file would publish a mixture). cid reference lists, *_delete names and the tmp "
         "directories are outside the statement. distinct_nontrivial = distinct (case or scenario, operation "
         "boundary) observation points.")
 ASSUMPTIONS = ["observation points are operation boundaries; states strictly inside one C-level system call are reached "
@@ -30,7 +31,7 @@ ASSUMPTIONS = ["observation points are operation boundaries; states strictly ins
                "process death leaves the page cache intact"]
 EXHAUSTIVE = {"quick": True, "thorough": True}
 SYMPTOMS = {"object-content-differs-from-name", "metadata-document-not-a-supplied-version",
-            "pid-ref-not-one-complete-cid", "permanent-address-flickers"}
+            "pid-ref-not-one-complete-cid", "permanent-address-flickers", "staging-file-shared-between-calls"}
 WATCHDOG_S = 3600
 
 EXTRA_CASES = [
@@ -141,8 +142,12 @@ def run_shard(kind, payload, tier, sub_seed):
                     sig = {"symptom": symptom, "calls": sorted(op_shape(o) for o in scn.calls),
                            "where": _where_class(detail.get("path", ""))}
                     res.violation(sig, C.witness(runner, ob, symptom, detail))
-                for symptom, _d in probs:
-                    res.foreign[symptom] = res.foreign.get(symptom, 0) + 1
+                for symptom, detail in probs:
+                    if symptom in SYMPTOMS:
+                        res.violation({"symptom": symptom, "calls": sorted(op_shape(o) for o in scn.calls)},
+                                      C.witness(runner, ob, symptom, detail))
+                    else:
+                        res.foreign[symptom] = res.foreign.get(symptom, 0) + 1
         except Inconclusive as inc:
             res.inconclusive.append(f"{scn.name}: {inc}")
         finally:
